@@ -259,6 +259,87 @@ def h_meta(s1: int, s2: int, t1: int, t2: int, iv: int, jv: int, dflt: int, prob
     reach('end')
 
 
+def h_created(k: int, jv: int, probe: int, creator='asarray', mdarg='empty', over=False, _gate=None, _small=False):
+    """the start state itself: an array just CREATED (or copied) with metadata None / {} / {'a': jv}, possibly over a
+    previous occupant that had metadata, has metadata.json exactly when its metadata are non-empty"""
+    assume(1 <= k <= 1000)
+    w = new_world()
+    w.mkdirs('/w')
+    model = {'a': jv} if mdarg == 'one' else {}
+    arg = None if mdarg == 'none' else dict(model)
+    ragged = 'ragged' in creator.lower()
+    cls = RA.RaggedArray if ragged else D.array.Array
+    if over:
+        if ragged:
+            put_ragged(D, w, '/w/x', [2], 'int32', 'little', (), metadata={'old': 1})
+        else:
+            put_array(D, w, '/w/x', 3, 'int32', 'little', (), metadata={'old': 1})
+    x = symnp.ndarray(symnp.SymDType('int32', gt_of('int32', 'little')), (k,), Seq.of(('new', 1), k))
+    try:
+        if creator == 'asarray':
+            h = D.array.asarray('/w/x', x, metadata=arg, overwrite=over, accessmode='r+')
+        elif creator == 'create_array':
+            h = D.array.create_array('/w/x', shape=(k,), dtype='int32', metadata=arg, overwrite=over, accessmode='r+')
+        elif creator == 'asraggedarray':
+            h = RA.asraggedarray('/w/x', [x], metadata=arg, overwrite=over, accessmode='r+')
+        elif creator == 'create_raggedarray':
+            h = RA.create_raggedarray('/w/x', atom=(), dtype='int32', metadata=arg, overwrite=over, accessmode='r+')
+        else:
+            if ragged:
+                put_ragged(D, w, '/w/src', [2], 'int32', 'little', (), metadata=dict(model) if model else None)
+            else:
+                put_array(D, w, '/w/src', 3, 'int32', 'little', (), metadata=dict(model) if model else None)
+            h = cls('/w/src').copy('/w/x', overwrite=over, accessmode='r+')
+    except Exception as e:
+        raise Violation(f'{creator}(metadata={mdarg}) raised {type(e).__name__}', msg=holes.symstr(e))
+    check_state(w, '/w/x', h, cls, model, f'after {creator}(metadata={mdarg}, overwrite={over})')
+    reach('end')
+
+
+def replay_created(cex, d):
+    import os
+    import warnings
+    warnings.simplefilter('ignore')
+    darr, np_ = rp.real()
+    fx = dict(d.get('fixed') or {})
+    fx.update(cex)
+    creator, mdarg, over = fx['creator'], fx['mdarg'], bool(fx.get('over'))
+    model = {'a': int(fx['jv'])} if mdarg == 'one' else {}
+    arg = None if mdarg == 'none' else dict(model)
+    ragged = 'ragged' in creator.lower()
+    k = min(int(fx['k']), 5)
+    probs = []
+    with rp.scratch() as tmp:
+        p = tmp + '/x'
+        x = np_.arange(k, dtype='int32')
+        if over:
+            if ragged:
+                darr.asraggedarray(p, [x], metadata={'old': 1})
+            else:
+                darr.asarray(p, x, metadata={'old': 1})
+        if creator == 'asarray':
+            h = darr.asarray(p, x, metadata=arg, overwrite=over)
+        elif creator == 'create_array':
+            h = darr.create_array(p, shape=(k,), dtype='int32', metadata=arg, overwrite=over)
+        elif creator == 'asraggedarray':
+            h = darr.asraggedarray(p, [x], metadata=arg, overwrite=over)
+        elif creator == 'create_raggedarray':
+            h = darr.create_raggedarray(p, atom=(), dtype='int32', metadata=arg, overwrite=over)
+        else:
+            src = (darr.asraggedarray(tmp + '/src', [x], metadata=arg) if ragged
+                   else darr.asarray(tmp + '/src', x, metadata=arg))
+            h = src.copy(p, overwrite=over)
+        exists = os.path.exists(p + '/metadata.json')
+        if exists != bool(model):
+            probs.append(f'{creator}(metadata={arg!r}, overwrite={over}): metadata.json exists={exists}, '
+                         f'metadata are {"non-" if model else ""}empty')
+        if dict(h.metadata) != model:
+            probs.append(f'metadata read back as {dict(h.metadata)!r}, expected {model!r}')
+    if probs:
+        return {'reproduced': True, 'detail': '; '.join(probs)}
+    return {'reproduced': False, 'detail': 'metadata.json exists exactly when the metadata are non-empty'}
+
+
 # ---- replay --------------------------------------------------------------------------------------------
 def replay_meta(cex, d):
     import os
@@ -422,6 +503,13 @@ def obligations(tier):
               timeout=T, replay='replay_meta', sym='s1, s2, t1, iv, jv, probe',
               bounds='re-assigning an EXISTING key (stored value jv symbolic) with a value of another JSON type that may compare '
                      'equal in Python (1 vs true vs 1.0); NumPy arrays holding exactly one element stay lists'),
+           Ob('MD-created', 'h_created',
+              splits=[dict(creator=c, mdarg=m, over=o)
+                      for c in ('asarray', 'create_array', 'asraggedarray', 'create_raggedarray', 'Array.copy', 'RaggedArray.copy')
+                      for m in ('none', 'empty', 'one') for o in (False, True)],
+              timeout=T, replay='replay_created', sym='k (rows), jv (payload), probe',
+              bounds="the start state: each of the 6 creating functions with metadata None / {} / {'a': jv} (for copy: the "
+                     "source's metadata), on a free path or with overwrite=True over an occupant that had metadata"),
            Ob('MD-reject', 'h_meta',
               splits=[dict(kind=k, start=st, ops=(op,), vkinds=('bad',), _must=('end', 'rejected'))
                       for k in ('array', 'ragged') for st in (0, 2) for op in ('setitem', 'update')],
